@@ -915,7 +915,7 @@ class Interp(object):
         obj, args = self.call_args(fr, n)
         nf = Frame(g)
         self.frames[id(nf)] = nf
-        if g.sym.get('kind') == 'lambda' or g.id.startswith('(lambda at'):
+        if g.sym.get('kind') == 'lambda' or '(lambda at' in g.id or '(anonymous class)::operator()' in (g.q or ''):   # incl. instantiations of a generic lambda
             nf.outer = fr       # a lambda called in the scope that created it: its captures are the creator's variables
         for i, p in enumerate(g.params):
             if i >= len(args):
